@@ -777,6 +777,16 @@ func (t *Terminal) readLine() (line string, err error) {
 		// t.remainder is a slice at the beginning of t.inBuf
 		// containing a partial key sequence
 		readBuf := t.inBuf[len(t.remainder):]
+		if len(readBuf) == 0 {
+			// an escape sequence that does not end within the whole input
+			// buffer is not a key: skip its first byte, what follows is
+			// handled as ordinary input. (A Read into the full buffer would
+			// return 0, nil for ever.)
+			n := copy(t.inBuf[:], t.remainder[1:])
+			t.remainder = t.inBuf[:n]
+			continue
+		}
+
 		var n int
 
 		t.lock.Unlock()
